@@ -54,7 +54,12 @@ static void try_document(const char *doc, size_t len, const char *what)
     /* a failed topology can be destroyed, or configured and loaded again */
     int rc3 = -9, rc4 = -9;
     if (MC_TRY(20000)) {
+      /* in turn: a synthetic description, the richest fixture (distances, memory attributes, CPU kinds, I/O: whatever the failed
+       * import registered before failing must not leak into the next load), nothing */
+      static char *rich; static int richlen;
+      if (!rich) { char pth[600]; snprintf(pth, sizeof(pth), "%s/harness/fixtures/annot.xml", univ_verif()); rich = univ_read_file(pth, &richlen); }
       if ((MC.transitions & 3) == 0) { rc3 = hwloc_topology_set_synthetic(t, "pu:2"); if (rc3 == 0) rc4 = hwloc_topology_load(t); }
+      else if ((MC.transitions & 3) == 1 && rich) { rc3 = hwloc_topology_set_xmlbuffer(t, rich, richlen + 1); if (rc3 == 0) rc4 = hwloc_topology_load(t); if (rc3 == 0 && rc4 == 0) { wf_check_mc(t, "reload-after-failure"); struct sb b; sb_init(&b); battery_group(t, BAT_CPUKINDS, &b); battery_group(t, BAT_DISTANCES, &b); battery_group(t, BAT_MEMATTRS, &b); sb_free(&b); } }
       else rc3 = rc4 = 0;
       hwloc_topology_destroy(t);
       mc_try_end();
